@@ -61,20 +61,19 @@ PROPS = {
         "jobs": {"quick": 6, "thorough": 6},
     },
     "C13": {
-        "verus_units": [],
-        "trusted": COMMON_TRUSTED + [
-            "ASSUMED dependency contract: lru::LruCache peek/get/get_mut/put/pop behave as a finite map below capacity (kani/lru_model.rs); the real lru+hashbrown code is not executed (one put+peek exhausts 14 GB in CBMC). This is the property's own qualifier 'below the 50k-entry tracking bound'.",
-            "IPDiversityEnforcer::get_per_ip_limit replaced by its contract (1 <= r <= max_per_ip_cap) in the IPv4 harnesses; the contract is proved by c13_per_ip_limit_contract",
-        ],
+        "verus_units": ["ipdiv"],
+        "trusted": COMMON_TRUSTED,
         "assumptions": [
-            "configured caps >= 1 (true of default/testnet/permissive and 'small caps'); network size <= 2^40; stored counts >= 1 and < 2^48",
-            "country (String-keyed) counts are not modelled: candidates have country = None; country counts carry no cap in this property",
+            "configured caps >= 1 (true of default/testnet/permissive and 'small caps'; with a cap of 0 the code admits the first node of a key, which the statement's 'never exceeds the cap' would forbid -- degenerate configuration, outside the quantifier); max_per_ip_cap <= 2^28; counters below usize::MAX",
+            "below the 50k-entry tracking bound (the property's own qualifier): LruCache is a finite map, eviction not modelled",
+            "sequential semantics: the enforcer is used behind one lock",
         ],
         "clauses_not_decided": [
-            "slot return when the routing table drops a node, and the partial-failure path of DhtCoreEngine::add_node (async engine)",
+            "slot return when the routing table drops a node, and the partial-failure path of DhtCoreEngine::add_node (async engine; known from reading: slots are not returned there)",
+            "whether the connecting-peer path applies the gate at all (address string rendering, C19)",
             "BootstrapManager::add_peer (async, ant-quic cache)",
         ],
-        "explanation": "Per-operation contracts of the enforcer over fully symbolic keys, counts, caps and flags: admitted iff every level is below its cap (halved, min 1, for hosting/VPN; IPv4 caps scaled by the network-size rule), add counts each level exactly or consumes none, remove returns the slots, unrelated keys of every map unchanged.",
+        "explanation": "Verus proves, on the mechanically extracted text of can_accept_node/add_node/remove_node/can_accept_ipv4/add_ipv4/remove_ipv4/*_unified/set_network_size, for every counter state (unbounded maps): admitted iff every level is below its cap (halved, min 1, for hosting/VPN; IPv4 caps scaled by the network-size rule); add counts each level exactly once and touches no other key of any map, or consumes nothing; remove returns each slot and touches nothing else. Lemmas over those contracts give the history-level claims: caps hold after every admission/removal (induction step), remove undoes add. Kani proves the f64 per-IP limit contract Verus assumes and the prefix extraction.",
         "jobs": {"quick": 8, "thorough": 8},
     },
     "C15": {
